@@ -430,6 +430,7 @@ type BoolNode struct {
 	B                     bool
 	pre, exp              bool
 	untouched             bool
+	pre0, preDrawn        bool
 }
 
 func newBool(name string, deco, nt int, classes []int) *BoolNode {
@@ -488,7 +489,10 @@ func (n *BoolNode) Input() (any, bool) {
 func (n *BoolNode) Prep(mode int, dest any) {
 	d := dest.(*bool)
 	if mode == Parse {
-		n.pre = v.Bool(n.name + ".pre") // arbitrary pre-value
+		if !n.preDrawn {
+			n.pre0, n.preDrawn = v.Bool(n.name+".pre"), true // arbitrary pre-value
+		}
+		n.pre = n.pre0
 		*d = n.pre
 	} else {
 		*d = n.B
@@ -774,7 +778,10 @@ func (n *PtrNode) Prep(mode int, dest any) {
 		n.El.pre = 0
 		return
 	}
-	n.IsNil = v.Choice(n.name+".nil", 2) == 1
+	n.IsNil = false
+	if !forcePtrNonNil {
+		n.IsNil = v.Choice(n.name+".nil", 2) == 1
+	}
 	if n.IsNil {
 		*d = nil
 	} else {
